@@ -83,6 +83,14 @@ def ltKey (a b : Key) : Bool := cmpKey a b == .lt
 
 end Match
 
+/-- `most_probably_language()`: first listed language if any, else English when `ascii` is a
+    candidate, else the first language tied to / inferred from the encoding, else Unknown -/
+def mostProbable {E L : Type} [DecidableEq E] (english unknown : L) (ascii : E) (inferred : E → List L)
+    (m : Match E L) : L :=
+  match m.cohs with
+  | (l, _) :: _ => l
+  | [] => if m.cands.contains ascii then english else (inferred m.enc).head?.getD unknown
+
 /-- `CharsetMatch::default()`: the answer for empty input -/
 def Match.default {E L} (utf8 : E) : Match E L :=
   ⟨[], utf8, Fl.zero, [], false, [], none⟩
